@@ -22,6 +22,9 @@ sys.path.insert(0, os.path.dirname(os.path.dirname(os.path.abspath(__file__))))
 def run_concrete(module, fn_name, inst, args):
     mod = importlib.import_module(module)
     fn = getattr(mod, fn_name)
+    if not hasattr(fn, "__harness__"):
+        # jobs of the non-CrossHair engines replay through their module's own replay(fn_name, inst, args) -> (ok, detail)
+        return mod.replay(fn_name, inst, args)
     spec = fn.__harness__
     a = spec.pack(inst, args)
     try:
